@@ -16,6 +16,9 @@ type PkgObj struct {
 	Cond    string `json:"cond,omitempty"`    // CEL condition annotation: "", "true", "false" or "cond.<name>"
 	CP      string `json:"cp,omitempty"`      // collision protection annotation
 	CondMap bool   `json:"condMap,omitempty"` // condition-map annotation
+	// CondMap2: the condition-map annotation has a second line (the same workload condition mapped to a second name), so the
+	// owners carry two mapped conditions
+	CondMap2 bool `json:"condMap2,omitempty"`
 	// PhaseForm: how the phase annotation value is written: "" exact | "lead" (" ph0") | "trail" ("ph0 ") | "block"
 	// (YAML block scalar, i.e. "ph0\n"). Anything but the exact name does not name a phase of the manifest.
 	PhaseForm string `json:"phaseForm,omitempty"`
@@ -207,6 +210,9 @@ func (o PkgObj) yaml(templated bool, c PkgCtx) string {
 	}
 	if o.CondMap {
 		sb.WriteString("    package-operator.run/condition-map: |\n      Available => my-prefix/Available\n")
+		if o.CondMap2 {
+			sb.WriteString("      Available => other-prefix/Up\n")
+		}
 	}
 	if o.Keep {
 		sb.WriteString("    example.com/keep: \"yes\"\n")
@@ -261,7 +267,11 @@ func (o PkgObj) expectedObject(templated bool, c PkgCtx, pkgManifestName string)
 		entry["collisionProtection"] = o.CP
 	}
 	if o.CondMap {
-		entry["conditionMappings"] = []any{map[string]any{"sourceType": "Available", "destinationType": "my-prefix/Available"}}
+		cm := []any{map[string]any{"sourceType": "Available", "destinationType": "my-prefix/Available"}}
+		if o.CondMap2 {
+			cm = append(cm, map[string]any{"sourceType": "Available", "destinationType": "other-prefix/Up"})
+		}
+		entry["conditionMappings"] = cm
 	}
 	return entry
 }
@@ -533,6 +543,7 @@ func GenPkg(t *rapid.T, maxFiles int) PkgDesc {
 			}
 			o.CP = rapid.SampledFrom([]string{"", "", "IfNoController", "None", "Prevent"}).Draw(t, "ocp")
 			o.CondMap = o.Kind == "Widget" && rapid.IntRange(0, 3).Draw(t, "condmap") == 0
+			o.CondMap2 = o.CondMap && rapid.Bool().Draw(t, "condmap2")
 			o.Keep = rapid.IntRange(0, 3).Draw(t, "keep") == 0
 			if f.Template {
 				o.Tmpl = rapid.SampledFrom([]string{"", "config", "helper", "quote", "b64", "default", "toJson", "upper"}).Draw(t, "otmpl")
